@@ -348,7 +348,7 @@ func bufReuseRegion(c *core.Ctx, rng *rand.Rand, db string, fixed bool) error {
 		all := func(int) bool { return true }
 		r.batch(b, mk(0), specs, all)
 		r.batch(b, mk(4), specs, func(i int) bool { return i%2 == 0 }) // same layout, other names on the same offsets
-		r.batch(b, mk(0), specs, all)                                 // the first names again: same ids
+		r.batch(b, mk(0), specs, all)                                  // the first names again: same ids
 		r.flushAll()
 		r.recheck(specs, "after flush")
 		r.batch(b, mk(2), specs, all) // half old, half new names, answered from the files and from memory
